@@ -55,12 +55,29 @@ def run(prog, check):
             replacers.append(f)
         else:
             listers.append(f)
+    # a function that applies a token replacer once per entry of its mapping argument renames sequentially, not simultaneously
+    rnames = {f.name for f in replacers}
+    for f in [x for x in prog.all_functions() if x.cls is None]:
+        if f in replacers:
+            continue
+        for loop in [n for n in ast.walk(f.node) if isinstance(n, ast.For)]:
+            it = loop.iter
+            src = it.func.value if (isinstance(it, ast.Call) and call_name(it) in ('items', 'keys') and isinstance(it.func, ast.Attribute)) else it
+            if isinstance(src, ast.Name) and src.id in f.params() and any(
+                    isinstance(c, ast.Call) and call_name(c) in rnames for c in ast.walk(loop)):
+                check.saw(f)
+                check.ob('C13.R2', '%s::single-pass' % f.key, False, '%s:%d' % (f.module.rel, loop.lineno),
+                         'the renamings of `%s` are applied one after another, each on the output of the previous one: a replacement that is '
+                         'itself a key is renamed again' % src.id, "swap map {'x': 'y', 'y': 'x'}: a swap must swap")
+                replacers.append(f)
     if len(replacers) < 2 or len(listers) < 1:
         raise AnalysisError('token utilities not found: replacers=%s listers=%s' % (
             [f.name for f in replacers], [f.name for f in listers]))
     for f in replacers:
         check.saw(f)
         params = f.params()
+        if not token_loops(f):
+            continue
         for loop in token_loops(f):
             tv = target_names(loop.target)
             if len(tv) < 2:
@@ -174,7 +191,29 @@ def run(prog, check):
                 n3 += 1
                 check.ob('C13.R3', '%s::replace(%s)' % (f.key, unparse(a)), ok, '%s:%d' % (f.module.rel, n.lineno),
                          'classified as ' + cls_, 'a variable whose name is a substring of another variable')
-    check.floor('C13.R1', 8)
+    # ---- R5: the callers that rename variables go through the utilities for every kind of term --------------
+    T = prog.classes.get('Term')
+    rt = T.methods.get('ReplaceTokensFromLookup') if T else None
+    if rt is None:
+        raise AnalysisError('Term.ReplaceTokensFromLookup not found')
+    check.saw(rt)
+    g = cfgmod.build(rt)
+    stores = [n for n in g.stmt_nodes() if n.kind == 'stmt' and isinstance(n.ast, ast.Assign) and
+              isinstance(n.ast.targets[0], ast.Attribute) and n.ast.targets[0].attr == 'Term']
+    for n in stores:
+        v = n.ast.value
+        ok = isinstance(v, ast.Call) and call_name(v) in ('replace_token_from_lookup', 'replace_token')
+        branch = 'opaque terms' if any(isinstance(t.ast, ast.Attribute) and t.ast.attr == 'IsBlob' and g.dominates(t, n) and
+                                       n.id in g.reach([b for b, l in g.succ[t.id] if l is True], include_src=True)
+                                       for t in g.nodes if t.kind == 'test') else 'simple terms'
+        check.ob('C13.R5', '%s::renames-through-utility(%s)' % (rt.key, branch), ok, '%s:%d' % (rt.module.rel, n.line),
+                 'term text is renamed with the token-level utility' if ok else
+                 'term text is renamed by `%s`: whole-text lookup misses names inside products / quotients' % unparse(v)[:70],
+                 "a simple term 'r*B' whose factor r is to be renamed")
+    check.ob('C13.R5', '%s::both-term-kinds-renamed' % rt.key, len(stores) >= 2, rt.where,
+             'opaque and simple terms are both renamed' if len(stores) >= 2 else 'one kind of term is not renamed at all', '')
+    check.floor('C13.R5', 3)
+    check.floor('C13.R1', 6)
     check.floor('C13.R2', 2)
     check.floor('C13.R3', 25)
     check.floor('C13.R4', 2)
